@@ -7,6 +7,8 @@ import ZV.Model.C32Kx
     `c32 kx eskx <vers> <isRSA 0|1> <rsa|ecdsa|ed25519> <sigalgs csv|-> <pointOK 0|1> <msg hex>`
             → `ok curve=<n> pub=<hex> st=<n> h=<n> sig=<hex>` | `err` | `panic`
     `c32 kx dskx <vers> <dss 0|1> <d|a|-|sig:hash csv> <msg hex>` → `ok p=<hex> g=<hex> ys=<hex> h=<n> sig=<hex>` | `err` | `panic`
+    `c32 kx dgen <vers> <msg hex>` → `ok p=<hex> g=<hex> ys=<hex> gen=<ok|err|panic>` | `err` | `panic`  (DHE ServerKeyExchange at an
+            InsecureSkipVerify client, then generateClientKeyExchange)
     `c32 kx rckx <vers> <msg hex>` / `c32 kx eckx <curve> <pointOK 0|1> <msg hex>` / `c32 kx dckx <p hex> <msg hex>`
             → `ok n=<hex>` | `err` | `panic`      (msg = the whole handshake message, 4-byte header included) -/
 namespace ZV.C32
@@ -55,6 +57,19 @@ def handleKx (args : List String) : String :=
       | .err => "err"
       | .panic => "panic"
     | _, _, _ => "bad-op"
+  | ["dgen", v, m] =>
+    match v.toNat?, ofHex m with
+    | some vers, some msg =>
+      match dheSKXSkipVerifyMsg ⟨vers, signatureRSA, defaultSKXSignatureAlgorithms⟩ msg with
+      | .ok (p, g, ys) =>
+        let gen := match dheGenCKX p g ys 0 with
+          | .ok _ => "ok"
+          | .err => "err"
+          | .panic => "panic"
+        s!"ok p={toHex (stripZeros p)} g={toHex (stripZeros g)} ys={toHex (stripZeros ys)} gen={gen}"
+      | .err => "err"
+      | .panic => "panic"
+    | _, _ => "bad-op"
   | ["rckx", _, m] =>
     match ofHex m with
     | some msg => showCkx (ckxMsg .rsa msg)
